@@ -56,7 +56,7 @@ def run(ctx):
     if len(cases) != r.distinct:
         raise core.Machinery("emitted %d cases for %d states" % (len(cases), r.distinct))
     if not quick:
-        r2 = ctx.mc("mc/MC_Offside.tla", "mc/MC_Offside_thorough.cfg", coverage=False, timeout=3000)
+        r2 = ctx.mc("mc/MC_Offside.tla", "mc/MC_Offside_thorough.cfg", coverage=False, timeout=4 * 3600)
         if r2.violated:
             ctx.reject("mc-thorough", "A-layer differs from P-layer: %s" % r2.violated, {"tlc": r2.out[-3000:]}, None)
         ctx.cov["exhaustive"] = True
